@@ -39,7 +39,7 @@ m = {
     "hooks": {
         "guard": "verif (Go build tag)",
         "enable": "go build/test -tags verif (done by ./check; the harness module replaces github.com/thought-machine/please with /repo)",
-        "baseline_off_cmd": "cd /repo && go test -vet=off -count=1 -timeout 25m ./...",
+        "baseline_off_cmd": "/verif/tools/baseline.sh /repo",
         "source_commits": [c.split()[0] for c in commits],
         "add_only": True,
     },
